@@ -1,4 +1,4 @@
-import SudsModel.Xsd.Schema
+import SudsModel.Lemmas.Builder
 /-!
 C03 — what `Builder.build` puts in a factory object, for every schema environment and type.
 -/
@@ -101,6 +101,25 @@ theorem recursion_cut_off (env : Env) (f : Nat) (hist : List (Member × Nat)) (m
 theorem attribute_defaults (env : Env) (f : Nat) (k : Key) :
     ∃ rest, skeleton env f k = .obj k.2 ((attrsOf env (env.types.length + 1) k).map attrField ++ rest) := by
   exact ⟨_, rfl⟩
+
+/-- **The builder terminates within the number of member declarations**, whatever the types refer
+to (themselves included): with more fuel than there are distinct member declarations in the schema
+the built object no longer depends on the fuel - the recursion history, not the fuel, ends it. -/
+theorem skeleton_fuel_independent (env : Env) (k : Key) (f1 f2 : Nat)
+    (h1 : (allMembers env).eraseDups.length < f1) (h2 : (allMembers env).eraseDups.length < f2) :
+    skeleton env f1 k = skeleton env f2 k := by
+  have hrem : remaining env [] ≤ (allMembers env).eraseDups.length := by
+    unfold remaining
+    exact List.length_filter_le _ _
+  unfold skeleton
+  have : ((members env (env.types.length + 1) k).filter fun x => !x.1.inChoice).flatMap
+        (fun x => skeletonMember env f1 [] x) =
+      ((members env (env.types.length + 1) k).filter fun x => !x.1.inChoice).flatMap
+        (fun x => skeletonMember env f2 [] x) := by
+    apply flatMap_congr_mem
+    intro x hx
+    exact skeletonMember_fuel env _ [] x hrem (members_in_allMembers env k x (List.mem_filter.mp hx).1) f1 f2 h1 h2
+  simp only [this]
 
 /-! Non-vacuity: a type that requires itself through a required member. -/
 def exRec : Env :=
